@@ -56,6 +56,8 @@ def _gen_one(args):
                           triv))
         info.update(status="under contract", paths=fc.npaths, exits=fc.exits,
                     source_hash=fc.source_hash,
+                    locals_now=getattr(fc, "locals_now", []),
+                    renamed_locals=getattr(fc, "renamed", {}),
                     has_ensures=bool(fc.ensures) and not fc.generator,
                     assumptions=sorted(eng.used_assumptions),
                     inconsistent=eng.inconsistent[:10],
